@@ -44,7 +44,7 @@ Definition run_E2E (case: list N) : list N :=
       let tbl0 := table_of (map (fun hr => PAdd (fst hr)) hs) [] in
       let ids := keys tbl0 in
       let tblB := fold_left (fun (t: table) (ir: N * (handler * bool)) => if snd (snd ir) then fst (remove_handler t (fst ir)) else t) (combine ids hs) tbl0 in
-      match lnk_run link gaps (i_sent iA) with
+      match lnk_run link gaps (i_sent iA) 0 with
       | Some (polls_, _) =>
           let '(retsB, log) := ticks ownB tblB (map (fun rn => gres_of (fst rn)) polls_) in
           (nlen ids :: ids) ++ (nlen retsA :: map ret_class retsA) ++ (nlen retsB :: map ret_class retsB) ++ show_elog log
